@@ -177,7 +177,7 @@ func genProxiedRequest(r *core.Rand, id, limit int) ReqSpec {
 		// complete stream
 		sp.Fault.Kind = r.PickS("cut", "readerr")
 	}
-	if sp.Proto == "http" && r.Chance(1, 2) {
+	if (sp.Proto == "http" || strings.HasPrefix(sp.Proto, "grpcweb")) && r.Chance(1, 2) {
 		sp.Fault.Err = "ueof"
 	}
 	addZeroMessages(r, &sp)
